@@ -406,7 +406,7 @@ func c07Compare(report func(string, map[string]any), where, src, input string, r
 		if extra, missing := msSub(opt, raw), msSub(raw, opt); len(missing) == 0 && len(extra) > 0 && allErrorValues(extra) {
 			// one recorded defect class: merged filters emit an error value where the
 			// sequence of filters drops the input value
-			report(fmt.Sprintf("%s symptom=optimized-plan-emits-error-values-the-analyzed-plan-drops ops=%s input=%s", strings.Fields(where)[0], c07Shape(src), rep.Short(input, 60)), map[string]any{"where": where, "program": src, "input": input, "unoptimized": raw, "optimized": opt})
+			report(fmt.Sprintf("%s symptom=optimized-plan-emits-error-values-the-analyzed-plan-drops input=%s", strings.Fields(where)[0], rep.Short(input, 60)), map[string]any{"ops": c07Shape(src), "where": where, "program": src, "input": input, "unoptimized": raw, "optimized": opt})
 			return
 		}
 		report(fmt.Sprintf("%s symptom=optimized-plan-%s program=%q input=%s", strings.Fields(where)[0], kind, src, rep.Short(input, 60)), map[string]any{"ops": c07Shape(src), "where": where, "program": src, "input": input, "unoptimized": raw, "optimized": opt})
